@@ -55,6 +55,18 @@ def run(F, rep):
             n += 1
             rep.ob("C16-LINE", o["instance"], o["ok"], detail=o["detail"], site=o["site"], how=o["how"], key=o["key"].replace("C19-G3", "C16-LINE"))
     rep.floor("C16-LINE", n, 4, "line-handling clauses of the record reader shared with C19")
+    # (RC) segments stored in reverse orientation pass through a per-base complement map: it has to keep every code the FASTA
+    # letters can produce (IUPAC ambiguity codes, the code of unknown letters), on the writer and on the reader (shared with C01)
+    from rules import c01
+    sub = type(rep)(rep.pid, rep.tier)
+    sub.cfg = getattr(rep, "cfg", "dev")
+    c01.rc_rule(F, sub)
+    n = 0
+    for o in sub.obligations:
+        if o["rule"] == "C01-RC":
+            n += 1
+            rep.ob("C16-RC", o["instance"], o["ok"], detail=o["detail"], site=o["site"], how=o["how"], key=o["key"].replace("C01-RC", "C16-RC"))
+    rep.floor("C16-RC", n, 3, "per-base orientation maps shared with C01")
     # (PACK) reference segments go through the tuple packer whatever letters the FASTA text contains: an alphabet-dependent
     # arm that packs a symbol its base cannot hold makes create succeed and extraction return other bases (shared with C12)
     from rules import c12
